@@ -102,7 +102,7 @@ for p in props:
         text, note = CLAIMS[p['id']]
         checks.append({
             "property_id": p['id'], "quick_cmd": "./check %s quick" % p['id'], "thorough_cmd": "./check %s thorough" % p['id'],
-            "evidence_file": "/verif/evidence/%s.json" % p['id'], "engine": "govc",
+            "evidence_file": "/verif/evidence/%s.json" % p['id'], "engine": "govc", "replay_cmd_template": "./bin/govc replay {path}",
             "level_claimed": {"category": ("other" if p['id'] == "C09" else "proof"), "text": text, "design_ref": "DESIGN.md section 9 (as built) and section 4, " + p['id']},
             "level_note": BASE_NOTE + note, "technique": TECH})
 na = []
